@@ -26,7 +26,7 @@ OWN = {
     'm18_backup_packs_before_index': ['C15'], 'm20_loose_published_when_exists_untrusted': ['C09'], 'm21_clean_no_session_refresh': ['C08'],
     'm23_import_cache_boundary': ['C14'], 'm24_read_error_as_eof': ['C17'], 'r_D1_revert_fix': ['C06', 'C18'], 'r_D2_revert_fix': ['C02', 'C03', 'C09', 'C12', 'C13'],
     'r_D3_revert_fix': ['C07'], 'r_D4_revert_fix': ['C08'], 'r_D5_revert_fix': ['C15'], 'r_D6_revert_fix': ['C14'],
-    'r_D7_revert_fix': ['C07'], 'r_D8_revert_fix': ['C11', 'C02'], 'r_D9_revert_fix': ['C06'],
+    'r_D7_revert_fix': ['C07'], 'r_D8_revert_fix': ['C11', 'C02'], 'r_D9_revert_fix': ['C06'], 'r_D10_revert_fix': ['C15'],
 }
 for name in sorted(OWN):
     path = os.path.join(HERE, 'mutants', name + '.diff')
